@@ -50,7 +50,10 @@ func (c *eeConn) Read(b []byte) (int, error) {
 	c.in = c.in[n:]
 	return n, nil
 }
-func (c *eeConn) Write(b []byte) (int, error)        { c.written = append(c.written, append([]byte{}, b...)); return len(b), nil }
+func (c *eeConn) Write(b []byte) (int, error) {
+	c.written = append(c.written, append([]byte{}, b...))
+	return len(b), nil
+}
 func (c *eeConn) Close() error                       { return nil }
 func (c *eeConn) LocalAddr() net.Addr                { return eeAddr("127.0.0.1:1") }
 func (c *eeConn) RemoteAddr() net.Addr               { return c.addr }
@@ -122,7 +125,7 @@ type eeRecorder struct {
 	body   []byte
 }
 
-func eeNewRecorder() *eeRecorder { return &eeRecorder{hdr: http.Header{}} }
+func eeNewRecorder() *eeRecorder          { return &eeRecorder{hdr: http.Header{}} }
 func (r *eeRecorder) Header() http.Header { return r.hdr }
 func (r *eeRecorder) WriteHeader(code int) {
 	if r.status == 0 {
@@ -147,14 +150,14 @@ func (r *eeRecorder) tlv() util.Container {
 }
 
 type eeWorld struct {
-	ctx     hap.Context
-	db      *eeDB
-	dev     *eeDevice
-	setup   *PairSetup
-	verify  *PairVerify
-	emitted []interface{}
-	accPub  ed25519.PublicKey
-	accPriv ed25519.PrivateKey
+	ctx      hap.Context
+	db       *eeDB
+	dev      *eeDevice
+	setup    *PairSetup
+	verify   *PairVerify
+	emitted  []interface{}
+	accPub   ed25519.PublicKey
+	accPriv  ed25519.PrivateKey
 	lastConn *hap.Connection
 }
 
